@@ -380,18 +380,16 @@ func (r *semRun) client(id int, ops []semOp, spawn func(name string, f func())) 
 // checkLiveness runs when the whole system is blocked with no timer pending: every remaining
 // Acquire is deadline-free (or its deadline has passed). Returns a violation message or "".
 func (r *semRun) checkLiveness() string {
-	s := r.sem
-	if !s.mu.TryLock() {
-		return ""
+	size, cur, frontN, nw, ok := semPeek(r.sem)
+	if !ok {
+		if semWhiteBox {
+			return "" // someone is inside the mutex
+		}
+		// black-box build (the private representation changed): the public counters; the system is quiescent, every
+		// goroutine is parked outside the semaphore's critical sections
+		cur, size = r.sem.Observe()
 	}
-	size, cur := s.size, s.cur
-	var frontN int64 = -1
-	if f := s.waiters.Front(); f != nil {
-		frontN = f.Value.(waiter).n
-	}
-	nw := s.waiters.Len()
-	s.mu.Unlock()
-	if frontN >= 0 && frontN <= size-cur {
+	if ok && frontN >= 0 && frontN <= size-cur {
 		return fmt.Sprintf("system is quiescent, first waiter wants %d, size=%d cur=%d (%d waiters): capacity allows it but it was not admitted", frontN, size, cur, nw)
 	}
 	// black-box cross-check (no knowledge of the queue): if every pending non-doomed request fits, one of them is first
@@ -460,9 +458,10 @@ func (semEngine) Exec(t *testing.T, raw json.RawMessage, tape *vrt.Tape, keepLog
 	cfg := vrt.Config{Strategy: sc.Strategy, TimeAdvPct: sc.TimeAdvPct, PCTChanges: sc.PCTChanges, PCTSpan: 150,
 		MaxSteps: 20000, Horizon: time.Hour, KeepLog: keepLog, YieldAfterUnlock: sc.YieldUnlock}
 	cfg.OnStep = func(s *vrt.Sim) {
-		if run.sem != nil && run.sem.mu.TryLock() {
-			cur := run.sem.cur
-			run.sem.mu.Unlock()
+		if run.sem == nil {
+			return
+		}
+		if _, cur, _, _, ok := semPeek(run.sem); ok {
 			if cur < 0 {
 				s.Fail("C42/negative-cur", fmt.Sprintf("cur=%d", cur))
 			}
